@@ -55,6 +55,11 @@ func (x *Exec) doCallVals(st *State, cc *ssa.CallCommon, fnv V, args []V, site s
 		return []Outcome{x.applyContract(st, fr, con, key, names, args, callee.Signature, site, tp)}
 	}
 	inRepo := callee.Pkg != nil && strings.HasPrefix(callee.Pkg.Pkg.Path(), modPrefix)
+	if !inRepo && callee.Synthetic != "" && (callee.Name() == "init" || strings.HasPrefix(callee.Name(), "init#")) {
+		// package initialisers of dependencies do not touch plenc's state
+		x.noteAssumption("package initialisers of dependencies (" + key + ") do not modify modelled memory")
+		return []Outcome{{st: st, results: nil}}
+	}
 	if (inRepo || synthetic || (con != nil && con.Inline) || callee.Parent() != nil) && len(callee.Blocks) > 0 && !x.onStack(st, callee) {
 		return x.runFunc(st, callee, args, cl.bindings)
 	}
@@ -290,13 +295,19 @@ func (x *Exec) applyContract(st *State, fr *Frame, con *Contract, key string, na
 func (x *Exec) bumpBrk(st *State, sp string) {
 	old := st.brk[sp]
 	nb := st.freshConst("brk"+sp, sortBV(64))
-	st.assume(and(app("bvuge", nb, old), app("bvult", nb, bvLit(maxAddr, 64))))
+	st.assume(and(app("bvuge", nb, old), app("bvult", nb, bvLit(brkLimit, 64))))
 	st.brk[sp] = nb
 }
 
 func (x *Exec) bumpFresh(st *State, v V) {
 	sp := spaceOf(v, "H")
 	if brk, ok := st.brk[sp]; ok {
+		if bv, _, isLit := litVal(brk); isLit && bv+brkStride < brkLimit {
+			// the callee's fresh object sits at the next stride
+			st.assume(eq(v.T, brk))
+			st.brk[sp] = bvLit(bv+brkStride, 64)
+			return
+		}
 		st.assume(app("bvuge", v.T, brk))
 		x.bumpBrk(st, sp)
 		st.assume(app("bvult", v.T, st.brk[sp]))
@@ -490,9 +501,9 @@ func (x *Exec) appendSeqDyn(st *State, data V, slen string, byteFn func(s *State
 	// appending to a nil slice yields a non-nil pointer exactly when something was appended or data was non-nil
 	rp := dp.T
 	if v, _, ok := litVal(dp.T); ok && v == 0 {
-		rp = st.freshConst("aptr", sortBV(64))
-		st.assume(app("bvult", rp, bvLit(maxAddr, 64)))
-		st.assume(eq(eq(rp, bvLit(0, 64)), eq(sl, bvLit(0, 64))))
+		// a fresh allocation (bump allocated, so distinct from every other buffer when materialised)
+		fresh := st.bump("B", ncap)
+		rp = st.define("aptr", sortBV(64), ite(eq(sl, bvLit(0, 64)), bvLit(0, 64), fresh))
 		base := st.mem[srcSpace]
 		_ = base
 		st.mem[space] = &MemVer{kind: mWrite, term: name, base: &MemVer{kind: mBase, term: "zeromem"}, at: rp, n: sl, byteAt: byteFn}
@@ -604,6 +615,9 @@ func (x *Exec) heapKeep(st *State) func(a string) string {
 func (x *Exec) usesLocals() bool {
 	if x.con == nil {
 		return false
+	}
+	if x.con.UseLocals {
+		return true
 	}
 	for _, en := range x.con.Ensures {
 		if en.Local {
